@@ -687,7 +687,7 @@ func c19RunT(c *c19Case, limit time.Duration) {
 	}
 }
 
-var c19Subs = []string{"a", "b", "c"}
+var c19Subs = []string{"a", "b", "c", ""} // the empty id is legal (the parser accepts ["REQ","",{}])
 
 // Event.Kind is an int64 and the property quantifies over all histories: beside kinds of the
 // NIP-01 range (0..65535, with both ends) the universe holds kinds outside of it that agree
